@@ -13,7 +13,7 @@ Inductive errc := EShape | ERank | ETypes | EArgs | ENotImpl | ETorch | EPyType 
 
 Inductive opn :=
   | OAdd | OSub | OMul | ONeg | OPos | ORAdd | ORSub | ORMul | ODiv | OKron | OOnes | OZeros | ORank1
-  | OMatmul | OTr | OEye.
+  | OMatmul | OTr | OEye | OForward.
 
 Section Expr.
 Context {R : Type} {RO : RingOps R}.
@@ -78,6 +78,7 @@ Definition apply_op (o : opn) (args : list val) (ia : list (list nat)) : val :=
   | OAdd, [VT _; VM _] | OAdd, [VM _; VT _] | OSub, [VT _; VM _] | OSub, [VM _; VT _]
   | OMul, [VT _; VM _] | OMul, [VM _; VT _] => VErr ETypes
   | OMatmul, [a; b] => matmul_dispatch a b
+  | OForward, [VM W; VD bias; VD X] => VD (forward W bias X)
   | OTr, [VM x] => VM (transpose x)
   | OTr, [VT _] => VErr EArgs
   | OEye, [] => match ia with [ns] => VM (eye_ttm ns) | _ => VErr EModel end
@@ -119,6 +120,7 @@ Definition dapply_op (o : opn) (args : list val) (ia : list (list nat)) : val :=
   | OMatmul, [VD A; VD B], [[d; 2]] => VD (dmatmat d A B)
   | OMatmul, [VD A; VD X], [[d; 3]] => VD (dmatvec_batch d A X)
   | OTr, [VD A], [[d]] => VD (dtranspose d A)
+  | OForward, [VD W; VD bias; VD X], [[d]] => VD (dmap2 radd (dmatvec_batch d W X) bias)
   | OEye, [], [ns] => VD (deye ns)
   | _, _, _ =>
   match o, args with
